@@ -171,9 +171,9 @@ class PrepComposite(Case):
     assumptions = Prep.assumptions
     site = "preprocess_observation/composite"
 
-    def __init__(self, kind, lead, tensordict=False):
-        self.kind, self.lead, self.tensordict = kind, tuple(lead), tensordict
-        self.name = f"prep-{kind}-lead{'x'.join(map(str, lead)) or 'none'}" + ("-tensordict" if tensordict else "")
+    def __init__(self, kind, lead, tensordict=False, normalize=True):
+        self.kind, self.lead, self.tensordict, self.normalize = kind, tuple(lead), tensordict, normalize
+        self.name = f"prep-{kind}-lead{'x'.join(map(str, lead)) or 'none'}" + ("-tensordict" if tensordict else "") + ("" if normalize else "-nonorm")
         self.members = [("a", "box1"), ("b", "discrete3"), ("c", "image")]
         self.bounds = {"container_space": kind, "members": [m for _, m in self.members], "leading_dims": list(lead), "symbolic": "every observation element"}
 
@@ -191,7 +191,7 @@ class PrepComposite(Case):
             obs = tuple(make_obs(v, f"obs_{k}", s, self.lead, "ndarray") for k, s in mem)
         patches = [(au, "torch", ShimTorch())] if v.mode != "real" else []
         with patched(*patches):
-            out = au.preprocess_observation(obs, space, "cpu", True)
+            out = au.preprocess_observation(obs, space, "cpu", self.normalize)
         n = int(np.prod(self.lead)) if self.lead else 1
         res = [Ob("container-kind-kept", isinstance(out, dict) if self.kind == "dict" else isinstance(out, tuple))]
         for j, (k, s) in enumerate(mem):
@@ -203,7 +203,7 @@ class PrepComposite(Case):
                 continue
             per, width, flat = len(raw) // n, len(elems(o)) // n, elems(o)
             for i in range(n):
-                exp = expected_row(s, raw[i * per:(i + 1) * per])
+                exp = expected_row(s, raw[i * per:(i + 1) * per], self.normalize)
                 res.append(Ob(f"member-{k}/row{i}/handled-like-the-member-space-alone", conj(*[eq(a, b) for a, b in zip(flat[i * width:(i + 1) * width], exp)])))
         return res
 
@@ -353,7 +353,8 @@ def cases(tier):
     cs += [Prep("box1", (2, 2)), Prep("discrete3", (2, 2)), Prep("multidiscrete", (2, 2)), Prep("image", (2,), normalize=False), Prep("box4", (2,)),
            Prep("box1", (2,), "tensor"), Prep("discrete3", (2,), "tensor"), Prep("box0", (), "number"), Prep("discrete3", (), "number"),
            Prep("image", (2,), "tensor"), Prep("multibinary", (2, 2))]
-    cs += [PrepComposite("dict", ()), PrepComposite("dict", (2,)), PrepComposite("tuple", (2,)), PrepComposite("tuple", ()), PrepComposite("dict", (2,), tensordict=True)]
+    cs += [PrepComposite("dict", ()), PrepComposite("dict", (2,)), PrepComposite("tuple", (2,)), PrepComposite("tuple", ()), PrepComposite("dict", (2,), tensordict=True),
+           PrepComposite("tuple", (2,), normalize=False), PrepComposite("dict", (), normalize=False)]
     for sp in ("box1", "box0", "image", "discrete3", "multidiscrete", "multibinary", "dict", "tuple"):
         cs += [VectDim(sp, ()), VectDim(sp, (3,))]
     cs += [IPPORouting(2, 2), IPPORouting(3, 1), IPPORouting(1, 2), CriticStack(2, 2), CriticStack(3, 1),
